@@ -44,7 +44,9 @@ package analysis
 //@        && (isSame <==> forall(k, 0, i, CompExp(node.VarList[k], node.ExpList[k])))
 //@ end
 
-// cgBinopExp hosts four checks; each report is made only for its documented pattern.
+// cgBinopExp hosts four checks; each report is made only for its documented pattern. "Same operands" (type 14) compares
+// the canonical names of the operands; a name stands for its expression only when it has no '#' placeholder ANYWHERE
+// in it (t[1] and t[2] are both rendered t.#int), so the report is made only for two placeholder-free names.
 //@ func (*Analysis).cgBinopExp
 //@   props C20
 //@   requires node != nil
@@ -58,6 +60,8 @@ package analysis
 //@        (node.Op == lexer.TkOpOr || node.Op == lexer.TkOpAnd || node.Op == lexer.TkOpLt || node.Op == lexer.TkOpLe
 //@         || node.Op == lexer.TkOpGt || node.Op == lexer.TkOpGe || node.Op == lexer.TkOpEq || node.Op == lexer.TkOpNe)
 //@        && streq(GetExpName(node.Exp1), GetExpName(node.Exp2))
+//@   at call InsertError#* before assert[same-operands-only-for-fully-named-operands] arg1 == 14 ==>
+//@        !containsByte(GetExpName(node.Exp1), "#") && !containsByte(GetExpName(node.Exp2), "#")
 //@   at call InsertError#* before assert[only-these-types] arg1 == 14 || arg1 == 15 || arg1 == 16 || arg1 == 21
 //@ end
 
